@@ -1,6 +1,6 @@
 def dummyHeader : String := "asn1 { dummy(999) header(999) }\n\nDEFINITIONS AUTOMATIC TAGS::= BEGIN\n"
 
-def dummyFooter : String := "END"
+def dummyFooter : String := "\nEND"
 
 def macroNeedles : List String := ["BEGIN"]
 
